@@ -425,6 +425,9 @@ fn gen_actor(p: &Profile, rng: &mut Rng) -> Case {
                             owned[c].retain(|x| x.0 != h);
                             owned[c].push((h2, 0));
                         } else {
+                            if g.rng.chance(1, 3) {
+                                ops.push(Op::JoinDiscard { h });
+                            }
                             ops.push(Op::Join { h })
                         }
                     }
